@@ -8,6 +8,11 @@
     C16_write, C16_write_default, C16_to_string    `Write` entry points = string entry points
     C16_xml_string, C16_xml_string_conv            full parameter set: prolog ++ (pretty) tokens
     C16_events_*                                   structure of the output-event stream
+    C16_write_fails_with_io, C16_write_error_priority,
+    C16_write_unlimited, C16_write_default_any_writer
+                                                   a writer that refuses a `write_all` call: `Error::Io`, never a panic; what it
+                                                   holds is a prefix of the string serialisation; which error is reported when
+                                                   the serialisation itself fails too (the first in event order)
     C16_normalizer_*                               the instances for a caller-supplied normalizer: `Xot::tokens(.., normalizer)`
                                                    <-> `serialize_xml_string_with_normalizer`; the event stream of the
                                                    normalised tree
@@ -16,6 +21,7 @@ import XotModel.Lemmas.Output
 import XotModel.Lemmas.Events
 import XotModel.Lemmas.XmlDeclRest
 import XotModel.Lemmas.NormalizerXml
+import XotModel.Lemmas.WriterXml
 
 namespace XotModel.Props
 open XotModel XotModel.Gen
@@ -358,5 +364,169 @@ theorem C16_normalizer_write_fail (N : Str → Str) (env : Env) (p : XmlParams) 
 theorem C16_normalizer_events (N : Str → Str) (t : Tree) (start : Path) :
     genOutputs (t.mapText N) start = (genOutputs t start).map (fun po => (po.1, po.2.mapText N)) :=
   genOutputs_mapText N t start
+
+/-! ### C16_write_fails: a writer that fails
+
+`serializeXmlWriteW P` (Model/XmlDecl.lean) is `serialize_xml_write_with_normalizer` in front of ANY writer `P`
+(`WriterPolicy`: what the writer answers to each `write_all` given the calls it accepted before — accept, or refuse
+after letting some of the bytes through), threaded through the calls in the order the Rust makes them: the pieces of
+the declaration, the pieces of the doctype, then per event indentation / token space / token text / newline, each one
+`w.write_all(..)?`.  `serializeXmlCalls` lists those calls as they happen when none is refused, and how the call then
+ends; `serializeXmlWriteWith` — the model every theorem above is about — is the writer that never fails.  All of it
+for arbitrary escaping functions, hence for `Xot::write`, `serialize_xml_write` and `…_with_normalizer`. -/
+
+/-- The never-failing model is the unlimited-budget instance (`Vec<u8>`; `budget none`), and its bytes are the
+    calls concatenated. -/
+theorem C16_write_unlimited (esc : Escapers) (env : Env) (p : XmlParams) (t : Tree) (start : Path) :
+    serializeXmlWriteW WriterPolicy.unlimited esc env p t start = serializeXmlWriteWith esc env p t start ∧
+    serializeXmlWriteW (WriterPolicy.budget none) esc env p t start = serializeXmlWriteWith esc env p t start ∧
+    ((serializeXmlCalls esc env p t start).1.flatten, (serializeXmlCalls esc env p t start).2)
+      = serializeXmlWriteWith esc env p t start :=
+  ⟨serializeXmlWriteW_unlimited esc env p t start, serializeXmlWriteW_unlimited esc env p t start,
+   serializeXmlCalls_eq esc env p t start⟩
+
+/-- **A failing writer gives `Error::Io`, never a panic.**  For every writer, every tree, start node and parameter
+    set (declaration, doctype, indentation on or off):
+    (1) either the writer refuses one of the calls the serialisation makes — then the call returns `Err(Io)` and the
+        writer holds what it had accepted — or it accepts them all and the result is that of the never-failing
+        writer (same bytes, same `Ok` / error);
+    (2) the writer never causes a panic: the call panics only where the string entry point does;
+    (3) whatever the writer holds when the call returns is a PREFIX of what the never-failing writer receives, in
+        particular of the string `serialize_xml_string` returns;
+    (4) `FailingWriter { fail_at_call: k }`: with `k` at least the number of calls the result is the old one; with
+        fewer it is `Io` and the writer holds exactly the first `k` calls. -/
+theorem C16_write_fails_with_io (P : WriterPolicy) (esc : Escapers) (env : Env) (p : XmlParams) (t : Tree)
+    (start : Path) :
+    ((∃ b, writeCalls P [] (serializeXmlCalls esc env p t start).1 = .error b ∧
+          serializeXmlWriteW P esc env p t start = (b, .err .io)) ∨
+      (writeCalls P [] (serializeXmlCalls esc env p t start).1 = .ok (serializeXmlCalls esc env p t start).1 ∧
+          serializeXmlWriteW P esc env p t start = serializeXmlWriteWith esc env p t start)) ∧
+    ((serializeXmlWriteW P esc env p t start).2 = .panic → (serializeXmlWriteWith esc env p t start).2 = .panic) ∧
+    (∃ rest, (serializeXmlWriteWith esc env p t start).1 = (serializeXmlWriteW P esc env p t start).1 ++ rest) ∧
+    (∀ s, serializeXmlStringWith esc env p t start = .ok s →
+        ∃ rest, s = (serializeXmlWriteW P esc env p t start).1 ++ rest) ∧
+    (∀ k, (serializeXmlCalls esc env p t start).1.length ≤ k →
+        serializeXmlWriteW (WriterPolicy.budget (some k)) esc env p t start = serializeXmlWriteWith esc env p t start) ∧
+    (∀ k, k < (serializeXmlCalls esc env p t start).1.length →
+        serializeXmlWriteW (WriterPolicy.budget (some k)) esc env p t start
+          = (((serializeXmlCalls esc env p t start).1.take k).flatten, .err .io)) := by
+  have hcalls := serializeXmlCalls_eq esc env p t start
+  have h1 : (serializeXmlCalls esc env p t start).1.flatten = (serializeXmlWriteWith esc env p t start).1 :=
+    congrArg Prod.fst hcalls
+  have h2 : (serializeXmlCalls esc env p t start).2 = (serializeXmlWriteWith esc env p t start).2 :=
+    congrArg Prod.snd hcalls
+  have hpre : ∃ rest, (serializeXmlWriteWith esc env p t start).1 = (serializeXmlWriteW P esc env p t start).1 ++ rest := by
+    obtain ⟨rest, h⟩ := replayCalls_prefix P [] (serializeXmlCalls esc env p t start)
+    rw [← serializeXmlWriteW_eq_replayCalls, List.nil_append, h1] at h
+    exact ⟨rest, h⟩
+  refine ⟨?_, ?_, hpre, ?_, ?_, ?_⟩
+  · rw [serializeXmlWriteW_eq_replayCalls]
+    unfold replayCalls
+    cases hw : writeCalls P [] (serializeXmlCalls esc env p t start).1 with
+    | error b => exact Or.inl ⟨b, rfl, rfl⟩
+    | ok h =>
+      have hh := writeCalls_ok P _ _ _ hw
+      rw [List.nil_append] at hh
+      subst hh
+      exact Or.inr ⟨rfl, hcalls⟩
+  · intro h
+    rw [serializeXmlWriteW_eq_replayCalls] at h
+    rw [← h2]
+    exact replayCalls_panic P [] _ h
+  · intro s hs
+    have hw := (C16_write esc env p t start).2.1 s hs
+    obtain ⟨rest, h⟩ := hpre
+    rw [hw] at h
+    exact ⟨rest, h⟩
+  · intro k hk
+    rw [serializeXmlWriteW_eq_replayCalls, replayCalls_budget, if_pos hk]
+    exact hcalls
+  · intro k hk
+    rw [serializeXmlWriteW_eq_replayCalls, replayCalls_budget, if_neg (by omega)]
+
+/-- **Which error wins** when the serialisation itself fails (`MissingPrefix`, `NamespaceInProcessingInstruction`,
+    `NotElement` / `NoElementAtTopLevel` of the doctype block): whichever comes first in the event order.  The
+    serialisation error `e` of the string entry point arises after exactly the calls `serializeXmlCalls.1` (the
+    declaration, the events rendered before, the indentation of the failing event).  A writer that accepts all of
+    those sees `e` reported, exactly as the string entry point reports it; a writer that refuses one of them makes
+    the call return `Io` — the serialisation never gets to the failing event.  In particular an error that arises
+    before the first write (no calls) is reported whatever the writer does. -/
+theorem C16_write_error_priority (P : WriterPolicy) (esc : Escapers) (env : Env) (p : XmlParams) (t : Tree)
+    (start : Path) (e : XotError) (he : serializeXmlStringWith esc env p t start = .err e) :
+    (writeCalls P [] (serializeXmlCalls esc env p t start).1 = .ok (serializeXmlCalls esc env p t start).1 →
+        serializeXmlWriteW P esc env p t start = ((serializeXmlCalls esc env p t start).1.flatten, .err e)) ∧
+    (∀ b, writeCalls P [] (serializeXmlCalls esc env p t start).1 = .error b →
+        serializeXmlWriteW P esc env p t start = (b, .err .io)) ∧
+    (∀ k, (serializeXmlCalls esc env p t start).1.length ≤ k →
+        (serializeXmlWriteW (WriterPolicy.budget (some k)) esc env p t start).2 = .err e) ∧
+    (∀ k, k < (serializeXmlCalls esc env p t start).1.length →
+        (serializeXmlWriteW (WriterPolicy.budget (some k)) esc env p t start).2 = .err .io) ∧
+    ((serializeXmlCalls esc env p t start).1 = [] → (serializeXmlWriteW P esc env p t start).2 = .err e) := by
+  have he' : (serializeXmlWriteWith esc env p t start).2 = .err e := ((C16_write esc env p t start).2.2 e).2 he
+  have h2 : (serializeXmlCalls esc env p t start).2 = .err e := by
+    rw [← he']; exact congrArg Prod.snd (serializeXmlCalls_eq esc env p t start)
+  have hmain := C16_write_fails_with_io P esc env p t start
+  refine ⟨?_, ?_, ?_, ?_, ?_⟩
+  · intro hw
+    rw [serializeXmlWriteW_eq_replayCalls]
+    simp only [replayCalls, hw, h2]
+  · intro b hw
+    rw [serializeXmlWriteW_eq_replayCalls]
+    simp only [replayCalls, hw]
+  · intro k hk
+    rw [(C16_write_fails_with_io (WriterPolicy.budget (some k)) esc env p t start).2.2.2.2.1 k hk, he']
+  · intro k hk
+    rw [(C16_write_fails_with_io (WriterPolicy.budget (some k)) esc env p t start).2.2.2.2.2 k hk]
+  · intro hnil
+    rw [serializeXmlWriteW_eq_replayCalls]
+    simp only [replayCalls, hnil, writeCalls, h2]
+
+/-- `Xot::write(node, w)` (default parameters) in front of any writer is the token loop alone. -/
+theorem C16_write_default_any_writer (P : WriterPolicy) (esc : Escapers) (env : Env) (t : Tree) (start : Path) :
+    serializeXmlWriteW P esc env {} t start = serializeWriteW P esc env {} t start :=
+  serializeXmlWriteW_default P esc env t start
+
+/-- Non-vacuity.  `<a><b:… /></a>` with `b`'s namespace undeclared, written with a declaration: the calls before
+    `MissingPrefix` arises are `<?xml version="1.0"`, `?>\n`, `<a`, `>` (env: name 2 = `a` in no namespace,
+    name 3 = `b` in namespace 2 = `u`).  Budgets 0 … 3 give `Io` with the writer holding the first calls, budget 4
+    and the never-failing writer give `MissingPrefix`. -/
+example :
+    let env : Env := ⟨[[], xmlNs, ['u']], [[], ['x','m','l']], [(['s','p','a','c','e'], 1), (['i','d'], 1), (['a'], 0), (['b'], 2)]⟩
+    let t : Tree := .node .document [.node (.element 2) [.node (.element 3) []]]
+    let p : XmlParams := { declaration := some {} }
+    (serializeXmlCalls xmlEscapers env p t []).1.map String.ofList = ["<?xml version=\"1.0\"", "?>\n", "<a", ">"] ∧
+    serializeXmlString env p t [] = .err (.missingPrefix 2) ∧
+    (fun r : Str × Outcome XotError Unit => (String.ofList r.1, r.2)) (serializeXmlWriteW (.budget (some 0)) xmlEscapers env p t [])
+      = ("", .err .io) ∧
+    (fun r : Str × Outcome XotError Unit => (String.ofList r.1, r.2)) (serializeXmlWriteW (.budget (some 3)) xmlEscapers env p t [])
+      = ("<?xml version=\"1.0\"?>\n<a", .err .io) ∧
+    (fun r : Str × Outcome XotError Unit => (String.ofList r.1, r.2)) (serializeXmlWriteW (.budget (some 4)) xmlEscapers env p t [])
+      = ("<?xml version=\"1.0\"?>\n<a>", .err (.missingPrefix 2)) ∧
+    (fun r : Str × Outcome XotError Unit => (String.ofList r.1, r.2)) (serializeXmlWriteW (.budget none) xmlEscapers env p t [])
+      = ("<?xml version=\"1.0\"?>\n<a>", .err (.missingPrefix 2)) := by decide
+
+/-- An error that arises before the first write wins against every writer: a doctype asked for a text node
+    (`NotElement`, no declaration) — even the writer that refuses its first call sees `NotElement`; with a
+    declaration in front the same writer gives `Io`. -/
+example :
+    (serializeXmlWriteW (.budget (some 0)) xmlEscapers {} { doctype := some (.sys ['s']) }
+        (.node (.text ['x']) []) []) = ([], .err .notElement) ∧
+    (serializeXmlWriteW (.budget (some 0)) xmlEscapers {} { doctype := some (.sys ['s']), declaration := some {} }
+        (.node (.text ['x']) []) []) = ([], .err .io) := by decide
+
+/-- Pretty printing: `<d><a/></d>` with indentation makes the calls `<`, `>`, `\n`, `  `, `<`, `/>`, `` (the empty
+    end-tag token of a childless element: the call is made all the same), `\n`, `</>`, `\n` (the empty environment
+    spells every name as the empty string); a writer that refuses its 5th call holds `<>\n  `, enough budget gives
+    the pretty string. -/
+example :
+    let t : Tree := .node .document [.node (.element 5) [.node (.element 2) []]]
+    let p : XmlParams := { indentation := some [] }
+    (serializeXmlCalls xmlEscapers {} p t []).1.map String.ofList = ["<", ">", "\n", "  ", "<", "/>", "", "\n", "</>", "\n"] ∧
+    (fun r : Str × Outcome XotError Unit => (String.ofList r.1, r.2)) (serializeXmlWriteW (.budget (some 4)) xmlEscapers {} p t [])
+      = ("<>\n  ", .err .io) ∧
+    (fun r : Str × Outcome XotError Unit => (String.ofList r.1, r.2)) (serializeXmlWriteW (.budget (some 9)) xmlEscapers {} p t [])
+      = ("<>\n  </>\n</>", .err .io) ∧
+    (fun r : Str × Outcome XotError Unit => (String.ofList r.1, r.2)) (serializeXmlWriteW (.budget (some 10)) xmlEscapers {} p t [])
+      = ("<>\n  </>\n</>\n", .ok ()) := by decide
 
 end XotModel.Props
